@@ -56,13 +56,32 @@ def gen_projects(rng, quick):
         shared = rng.choice(G.ALIASES) if rng.random() < 0.25 else None       # several packages under one alias
         specs = [G.gen_spec(rng, j, pl, n, kind, pos, alias=shared, sp=sp, detached=det) for j, (pl, n, kind, pos, sp, det) in enumerate(chunk)]
         npk = len(specs)
-        if rng.random() < 0.3:      # the same package once more: as a root import next to a named one, or under the same alias
-            j = rng.randrange(npk)
+        # the same package once more: as a root import next to a named one, under the same alias
+        # again (one import), or under a SECOND alias (exposed under both; every third project has one)
+        if rng.random() < 0.35 or i % 3 == 0:
+            cand = [j for j in range(npk) if G.oracle_tag(specs[j]) is not None] or [0]
+            named = [j for j in cand if G.oracle_tag(specs[j])]
+            j = rng.choice(named if (named and i % 3 == 0) else cand)
             a = G.oracle_tag(specs[j])
-            if a:
-                again = G.gen_spec(rng, j, rng.choice(PLACEMENTS), rng.randrange(3), rng.choice(["root", "alias"]), alias=a)
-                again["name"] = "_"
-                specs.append(again)
+            how = "second" if (i % 3 == 0 or not a) else rng.choice(["root", "same", "second"])
+            if how == "root":
+                again = G.gen_spec(rng, j, rng.choice(PLACEMENTS), rng.randrange(3), "root")
+            elif how == "same":
+                again = G.gen_spec(rng, j, rng.choice(PLACEMENTS), rng.randrange(3), "alias", alias=a)
+            else:
+                other = rng.choice([x for x in G.ALIASES if x.lower() != (a or "").lower()])
+                again = G.gen_spec(rng, j, rng.choice(PLACEMENTS), rng.randrange(3), "alias", alias=other)
+            again["name"] = "_"
+            again["meta"]["kind"] = "again-" + how
+            specs.append(again)
+        # import paths written as raw string literals (every second project has one on a tagged spec)
+        for s in specs:
+            if rng.random() < 0.12:
+                s["raw"] = True
+        if i % 2 == 1:
+            tagged = [s for s in specs if G.oracle_tag(s) is not None]
+            if tagged:
+                rng.choice(tagged)["raw"] = True
         proj = G.assemble(rng, name, LAYOUTS[i % len(LAYOUTS)], specs, npk)
         # the same package as a root import twice is a name clash (C07): drop a second root
         seen = set()
@@ -80,8 +99,8 @@ def gen_projects(rng, quick):
 
 
 def odd_projects(rng, i0):
-    """shapes the property sentence does not decide, and the known deviations of the current code:
-    only the model is compared with the implementation on them"""
+    """shapes the property sentence does not decide (block comments, a malformed leading tag line
+    next to a well-formed trailing one): only the model is compared with the implementation on them"""
     def spec(pkg, lead=(), trail=None, raw=False, placement="single_above"):
         return {"pkg": pkg, "name": "_", "lead": list(lead), "detached": False, "trail": trail, "raw": raw,
                 "meta": {"placement": placement, "n_pre": max(0, len(lead) - 1), "kind": "odd", "position": "last"}}
@@ -92,10 +111,6 @@ def odd_projects(rng, i0):
         # a malformed leading tag line hides a well-formed trailing one
         [spec(0, ["// mage:import a b"], "// mage:import t"), spec(1, ["// c", "// mage:import one two three"], "// mage:import", placement="group_lead"),
          spec(2, ["// mage:import fine"])],
-        # a raw string literal as import path
-        [spec(0, ["// mage:import one"], raw=True), spec(1, [], "// mage:import", raw=True, placement="group_trail"), spec(2, ["// mage:import two"])],
-        # one package under two aliases
-        [spec(0, ["// mage:import one"]), spec(0, ["// mage:import two"], placement="group_lead"), spec(1, ["// mage:import one"])],
     ]
     out = []
     for k, specs in enumerate(sets):
@@ -256,7 +271,7 @@ def run(ctx):
     cov = ctx.coverage
     combos = set()
     dist = {"specs": 0, "untagged": 0, "root": 0, "named": 0}
-    by = {"placement": {}, "group_length": {}, "spelling": {}, "kind": {}, "position": {}, "layout": {}}
+    by = {"placement": {}, "group_length": {}, "spelling": {}, "kind": {}, "position": {}, "layout": {}, "raw_path_literal": {}}
     nerr = 0
     for proj, obs, ast in zip(projects, observations, asts):
         by["layout"][proj["layout"]] = by["layout"].get(proj["layout"], 0) + 1
@@ -270,7 +285,9 @@ def run(ctx):
                     t = G.oracle_tag(s)
                     dist["untagged" if t is None else ("root" if t == "" else "named")] += 1
                     glen = len(s["lead"])
-                    combo = (m["placement"], glen, m.get("spelling"), m["kind"], m["position"], s["detached"])
+                    combo = (m["placement"], glen, m.get("spelling"), m["kind"], m["position"], s["detached"], bool(s.get("raw")))
+                    if s.get("raw"):
+                        by["raw_path_literal"]["tagged" if t is not None else "untagged"] = by["raw_path_literal"].get("tagged" if t is not None else "untagged", 0) + 1
                     combos.add(combo)
                     for k, v in (("placement", m["placement"]), ("group_length", str(glen)), ("spelling", str(m.get("spelling"))),
                                  ("kind", m["kind"]), ("position", m["position"])):
@@ -293,13 +310,22 @@ def run(ctx):
     cov["evaluations"] = dist["specs"]
     cov["distinct_nontrivial"] = len(combos)
     cov["rule"] = ("evaluations = import specs of generated packages inside %d generated projects (one Coq case per project: the whole listing and the body run under "
-                   "every listed name); distinct = (placement, length of the leading comment group, spelling, kind, position of the tag line, detached) combinations; "
+                   "every listed name); distinct = (placement, length of the leading comment group, spelling, kind, position of the tag line, detached, raw path literal) combinations; "
                    "every placement x every length 0..12 of preceding lines (group lengths 1..13, nine included) and every placement x every spelling x root/alias "
                    "occur in every run" % len(projects))
     cov["projects"] = len(projects)
     cov["tags_by_oracle"] = dist
     cov["distribution"] = by
     cov["projects_where_mage_failed"] = nerr
+    def aliases_of(proj):
+        m = {}
+        for f in proj["files"]:
+            for d in f["decls"]:
+                for s in d["specs"]:
+                    if isinstance(s["pkg"], int) and G.oracle_tag(s):
+                        m.setdefault(s["pkg"], set()).add(G.oracle_tag(s))
+        return m
+    cov["projects_with_one_package_under_two_aliases"] = sum(1 for p in projects if not p.get("odd") and any(len(v) > 1 for v in aliases_of(p).values()))
     cov["projects_whose_start_directory_cannot_resolve_the_imports"] = sum(
         1 for o in observations if o["golist_mf"] and any(o["golist_mf"].values()) and not all(o["golist_start"].get(p) for p in o["golist_mf"] if o["golist_mf"][p]))
     cov["model_mismatches"] = len(mism)
